@@ -1469,8 +1469,12 @@ def check_checkpoint(cfg, tier="quick"):
 
     def body():
         plain = cfg.make_args()
-        f = lambda x: cfg.call(anp, *subst(plain, k, x))
-        cf = autograd.checkpoint(f)
+        # the wrapped function takes an extra positional and a keyword argument with NON-default values: the recomputation
+        # in the backward pass must see them too
+        fk = lambda x, m, scale=1.0, shift=0.0: cfg.call(anp, *subst(plain, k, x)) * (m * scale) + shift
+        cfk = autograd.checkpoint(fk)
+        f = lambda x: fk(x, 2.0, scale=1.5, shift=0.25)
+        cf = lambda x: cfk(x, 2.0, scale=1.5, shift=0.25)
         res = {"tag": "ok", "args": plain}
         try:
             vjp, yv = core.make_vjp(f, plain[k])
@@ -1557,8 +1561,19 @@ def check_flatten(case, tier="quick"):
     t0 = time.time()
     anp = enga.anp
 
+    def to_f(v_):
+        if isinstance(v_, dict):
+            return {k_: to_f(e) for k_, e in v_.items()}
+        if isinstance(v_, (tuple, list)):
+            return type(v_)(to_f(e) for e in v_)
+        if isinstance(v_, onp.ndarray) and v_.ndim >= 2:
+            return onp.asfortranarray(v_)
+        return v_
+
     def body():
         v = cfg.make_args()[0]
+        if "[layout:F]" in lab:
+            v = to_f(v)  # same values, Fortran memory layout (e.g. a transposed weight matrix)
         try:
             flat, unflatten = flatten(v)
             back = unflatten(flat)
@@ -1736,6 +1751,30 @@ def check_operators(case, tier="quick"):
         attempt("jacobian wrt argnum 1 with extra args", lambda: autograd.jacobian(F2, 1)(3.0, x, b="unused", scale=2.0), 2.0 * Jx)
         attempt("grad wrt argnum 1 of scalar", lambda: autograd.grad(lambda a, xx, k=1.0: sc(xx) * k, 1)(0.5, x, k=3.0), 3.0 * gJ)
         attempt("grad_named", lambda: autograd.grad_named(lambda a, xx: sc(xx), "xx")(0.5, x), gJ)
+        # keyword arguments (non-default values) must reach fun unchanged through EVERY operator
+        def sck(x_, k=1.0, shift=0.0):
+            return sc(x_) * k + shift
+
+        def Fk(x_, k=1.0):
+            return F(x_) * k
+
+        attempt("grad forwards kwargs", lambda: autograd.grad(sck)(x, k=3.0, shift=0.5), 3.0 * gJ)
+        attempt("value_and_grad forwards kwargs (value)", lambda: autograd.value_and_grad(sck)(x, k=3.0, shift=0.5)[0], 3.0 * onp.sum(y0 * g) + 0.5)
+        attempt("value_and_grad forwards kwargs (grad)", lambda: autograd.value_and_grad(sck)(x, k=3.0)[1], 3.0 * gJ)
+        attempt("elementwise_grad forwards kwargs", lambda: autograd.elementwise_grad(Fk)(x, k=3.0), 3.0 * (onp.sum(J, axis=tuple(range(no))) if no else J))
+        attempt("jacobian forwards kwargs", lambda: autograd.jacobian(Fk)(x, k=3.0), 3.0 * Jx)
+        attempt("hessian forwards kwargs", lambda: autograd.hessian(sck)(x, k=3.0), 3.0 * Hs)
+        attempt("hessian_tensor_product forwards kwargs", lambda: autograd.hessian_tensor_product(sck)(x, v, k=3.0), 3.0 * T(Hs, v, nin))
+        attempt("hessian_vector_product forwards kwargs", lambda: autograd.hessian_vector_product(sck)(x, v, k=3.0, shift=2.0), 3.0 * T(Hs, v, nin))
+        attempt("tensor_jacobian_product forwards kwargs", lambda: autograd.tensor_jacobian_product(Fk)(x, g, k=3.0), 3.0 * T(g, J, no))
+        attempt("make_vjp forwards kwargs", lambda: autograd.make_vjp(Fk)(x, k=3.0)[0](g), 3.0 * T(g, J, no))
+        attempt("make_jvp forwards kwargs", lambda: autograd.make_jvp(Fk)(x, k=3.0)(v)[1], 3.0 * T(J, v, nin))
+        attempt("make_hvp forwards kwargs", lambda: autograd.make_hvp(sck)(x, k=3.0)[0](v), 3.0 * T(Hs, v, nin))
+        attempt("grad_and_aux forwards kwargs", lambda: autograd.grad_and_aux(lambda x_, k=1.0: (sck(x_, k=k), k))(x, k=3.0)[0], 3.0 * gJ)
+        if scalar_in or ish == ():
+            attempt("deriv forwards kwargs", lambda: autograd.deriv(Fk)(x, k=3.0), 3.0 * J)
+        attempt("make_jvp_reversemode forwards kwargs", lambda: autograd.differential_operators.make_jvp_reversemode(Fk)(x, k=3.0)(v), 3.0 * T(J, v, nin))
+        attempt("extra positional arguments are forwarded", lambda: autograd.hessian_vector_product(lambda x_, m, k=1.0: sc(x_) * m * k)(x, 2.0, v, k=3.0), 6.0 * T(Hs, v, nin))
         attempt("tuple argnum gives a tuple", lambda: autograd.grad(lambda a, xx: sc(a) + 2.0 * sc(xx), (0, 1))(x, x)[1], 2.0 * gJ)
         attempt("list argnum gives a tuple", lambda: autograd.grad(lambda a, xx: sc(a) + 2.0 * sc(xx), [1, 0])(x, x)[1], 1.0 * gJ)
         return {"tag": "ok", "eq": eq, "args": [x]}
